@@ -6,7 +6,7 @@ from harness.props import base
 
 PROP = {
     "id": "C10",
-    "quick_n": 300,
+    "quick_n": 450,
     "thorough_n": 8000,
     "rule": "one program = tree spec a and a copy b with exactly one structural mutation at a "
             "random depth (primitive type, num/low/high, binWidth/origin, centres, thresholds, Bag "
@@ -69,7 +69,8 @@ def mutate(r, g, spec):
             opts += ["keys"]
         if k in ("Index", "Branch", "Label", "UntypedLabel"):
             opts += ["size"]
-        m = r.choice(opts)
+        # structural parameters are where a comparison is most easily lost: favour them over "type"
+        m = r.choice(opts[1:]) if len(opts) > 1 and r.random() < 0.7 else r.choice(opts)
         if m == "type":
             # parents that require homogeneous children cannot hold a child of another type
             if path and path[-2:-1] and path[-2] in ("pairs", "values") and get_at(s, path[:-2])["k"] in ("Label", "Index"):
